@@ -101,12 +101,37 @@ def optLines {Tok} (f : Attribute → List (Line Tok)) : Option Attribute → Li
   | none => []
   | some a => f a
 
-/-- `ObjEncoder::EncodeToBuffer` without metadata: all position values, all texture coordinates,
-    all normals (whole value tables, not per point), then for a mesh one `f` line per face.
+/-- per-point entries: one `v` record per point, through `mapped_index` -/
+def vPts {Tok} (c : NumCodec Tok) (a : Attribute) (n : Nat) : List (Line Tok) :=
+  (List.range n).map (fun p =>
+    match (floatsAt a (a.ioMappedIndex p) 3).map c.print with
+    | [x, y, z] => Line.v x y z
+    | _ => Line.other "")
+
+def vtPts {Tok} (c : NumCodec Tok) (a : Attribute) (n : Nat) : List (Line Tok) :=
+  (List.range n).map (fun p =>
+    match (floatsAt a (a.ioMappedIndex p) 2).map c.print with
+    | [x, y] => Line.vt x y
+    | _ => Line.other "")
+
+def vnPts {Tok} (c : NumCodec Tok) (a : Attribute) (n : Nat) : List (Line Tok) :=
+  (List.range n).map (fun p =>
+    match (floatsAt a (a.ioMappedIndex p) 3).map c.print with
+    | [x, y, z] => Line.vn x y z
+    | _ => Line.other "")
+
+/-- `per_point` of `ObjEncoder::EncodePositions` / `EncodeTextureCoordinates` / `EncodeNormals`:
+    `in_mesh_ == nullptr || in_mesh_->num_faces() == 0` -/
+def perPoint (g : Geometry) : Bool := !g.isMesh || g.faces.isEmpty
+
+/-- The writer **before** /repo commit 55a4a4d ("OBJ encoder wrote point clouds as value tables …"),
+    kept for the historical witnesses of DracoProps/C15.lean and as the mesh branch of `encodeE`:
+    all position values, all texture coordinates, all normals (whole value *tables*, not per
+    point), then for a mesh one `f` line per face.
     `reject`: no POSITION attribute or an empty one.  The first TEX_COORD / NORMAL attribute is used
     when non-empty; component counts are not checked (`ConvertValue` pads / truncates).
     COLOR, GENERIC and any further attributes are silently dropped. -/
-def encodeE {Tok} (c : NumCodec Tok) (g : Geometry) : Res (List (Line Tok)) :=
+def encodeTablesE {Tok} (c : NumCodec Tok) (g : Geometry) : Res (List (Line Tok)) :=
   match g.ioNamedAtt tPOSITION with
   | none => .error .reject
   | some pos =>
@@ -124,6 +149,31 @@ def encodeE {Tok} (c : NumCodec Tok) (g : Geometry) : Res (List (Line Tok)) :=
       else
         .ok (vLines c pos ++ optLines (vtLines c) tex ++ optLines (vnLines c) nrm ++
              (if g.isMesh then g.faces.map (fLine pos tex nrm) else []))
+
+/-- `ObjEncoder::EncodeToBuffer` without metadata.
+    Mesh with at least one face: whole value tables and one `f` line per face (`encodeTablesE`).
+    Point cloud, or mesh without faces (`perPoint`): the reader pairs the i-th `v` with the i-th
+    `vt` / `vn`, so the writer emits one `v` / `vt` / `vn` record **per point**, through the
+    point → value maps; no `f` lines.
+    `reject`: no POSITION attribute or an empty one.  `ub`: a point maps outside a value table. -/
+def encodeE {Tok} (c : NumCodec Tok) (g : Geometry) : Res (List (Line Tok)) :=
+  if !perPoint g then encodeTablesE c g else
+  match g.ioNamedAtt tPOSITION with
+  | none => .error .reject
+  | some pos =>
+    if pos.numValues = 0 then .error .reject else
+    let tex := texOf g
+    let nrm := nrmOf g
+    match writable pos, optWritable tex, optWritable nrm with
+    | .error e, _, _ => .error e
+    | _, .error e, _ => .error e
+    | _, _, .error e => .error e
+    | .ok _, .ok _, .ok _ =>
+      if !(pos.valid g.numPoints && optMapValid tex g.numPoints && optMapValid nrm g.numPoints)
+      then .error .ub
+      else
+        .ok (vPts c pos g.numPoints ++ optLines (fun a => vtPts c a g.numPoints) tex ++
+             optLines (fun a => vnPts c a g.numPoints) nrm)
 
 def encode {Tok} (c : NumCodec Tok) (g : Geometry) : Option (List (Line Tok)) := (encodeE c g).toOption
 
